@@ -44,11 +44,11 @@ Bag == {kn \in Kinds \X (1..5) : Active(kn[1]) /\ kn[2] <= Weight(kn[1])}
 XFor(via) == IF via = "staff" THEN Exts ELSE {DummyExt}
 
 KindStep(k) ==
-  CASE k = "create" -> \E via \in Vias, id \in Ids, lt \in LtPool, veto \in VetoPool : \E p \in Persons(id) : \E x \in XFor(via) : TxCreate(via, id, p, x, lt, veto)
-    [] k = "update" -> \E via \in Vias, id \in Ids, lt \in LtPool, f \in FieldSets, veto \in VetoPool : \E p \in Persons(id) : \E x \in XFor(via) : TxUpdate(via, id, p, x, lt, f, veto)
-    [] k = "delete" -> \E via \in Vias, id \in Ids, veto \in VetoPool : TxDelete(via, id, veto)
+  CASE k = "create" -> \E via \in Vias, id \in Ids, lt \in LtPool, veto \in VetoPool, os \in OpSysPool : \E p \in Persons(id) : \E x \in XFor(via) : TxCreate(via, id, p, x, lt, veto, os)
+    [] k = "update" -> \E via \in Vias, id \in Ids, lt \in LtPool, f \in FieldSets, veto \in VetoPool, os \in OpSysPool : \E p \in Persons(id) : \E x \in XFor(via) : TxUpdate(via, id, p, x, lt, f, veto, os)
+    [] k = "delete" -> \E via \in Vias, id \in Ids, veto \in VetoPool, os \in OpSysPool : TxDelete(via, id, veto, os)
     [] k = "createTeam" -> \E t \in Teams : TxCreateTeam(t)
-    [] k = "deleteTeam" -> \E t \in Teams : TxDeleteTeam(t)
+    [] k = "deleteTeam" -> \E t \in Teams, os \in OpSysPool : TxDeleteTeam(t, os)
     [] k = "links" -> \/ \E n \in LinkNames \cap {"addLinks", "removeLinks", "setLinks"}, p \in Ids, ts \in SUBSET Teams : TxLinks(n, p, ts)
                       \/ \E n \in LinkNames \cap {"addLinks", "removeLinks", "setLinks"}, t \in Teams, ps \in SUBSET Ids : TxLinksT(n, t, ps)
                       \/ \E n \in LinkNames \cap {"addLink", "removeLink"}, p \in Ids, t \in Teams : TxLink1(n, p, t)
